@@ -58,6 +58,11 @@ pub struct RunSpec {
     /// fault plan items (see verif_io.c)
     pub faults: Vec<String>,
     pub rand_seed: u64,
+    /// environment variables of the child (nothing in the contract depends on them)
+    pub env: Vec<(String, String)>,
+    /// earlier invocations executed in the same working directory before this
+    /// one (their own files are laid out too); only this run is judged
+    pub prior: Vec<RunSpec>,
 }
 
 impl RunSpec {
@@ -169,6 +174,8 @@ impl RunSpec {
             "fifos": self.fifos.iter().map(|(p, c)| json!({"path":p,"content":escape_bytes(c)})).collect::<Vec<_>>(),
             "faults": self.faults,
             "rand_seed": self.rand_seed.to_string(),
+            "env": self.env.iter().map(|(k, v)| json!([k, v])).collect::<Vec<_>>(),
+            "prior": self.prior.iter().map(|p| p.to_json()).collect::<Vec<_>>(),
             "argv": self.argv(),
         })
     }
@@ -243,6 +250,16 @@ impl RunSpec {
                 .and_then(|x| x.as_str())
                 .and_then(|x| x.parse().ok())
                 .unwrap_or(1),
+            env: v
+                .get("env")
+                .and_then(|e| e.as_array())
+                .map(|a| a.iter().filter_map(|p| Some((p.get(0)?.as_str()?.to_string(), p.get(1)?.as_str()?.to_string()))).collect())
+                .unwrap_or_default(),
+            prior: v
+                .get("prior")
+                .and_then(|e| e.as_array())
+                .map(|a| a.iter().filter_map(|p| RunSpec::from_json(p).ok()).collect())
+                .unwrap_or_default(),
         })
     }
 }
